@@ -367,4 +367,48 @@ Section Trav.
     split; [exact Hnd|].
     intros En z Hz Hg. rewrite En in Htodo. destruct (Htodo None (fl_none _) z Hz Hg) as [X|X]; [destruct X|exact X].
   Qed.
+
+  (* list order: at the moment a callback w is visited, every callback visited earlier that is still in
+     the list stands before w in the list *)
+  Definition precedes (ids : list nid) (v w : nid) : Prop := exists a b c, ids = a ++ v :: b ++ w :: c.
+
+  Lemma sfrom_suffix w ids : In w ids -> exists pre, ids = pre ++ sfrom w ids /\ ~ In w pre.
+  Proof.
+    induction ids as [|y r IH]; intros H; [destruct H|]. cbn [sfrom].
+    destruct (Nat.eqb_spec w y) as [->|Hne].
+    - exists []. split; [reflexivity|intros []].
+    - destruct H as [->|H]; [contradiction|]. destruct (IH H) as [pre [E N]].
+      exists (y :: pre). split; [cbn [app]; rewrite <- E; reflexivity|]. intros [X|X]; [congruence|contradiction].
+  Qed.
+
+  Theorem traversal_visits_in_list_order g ids evs w nd :
+    GInv g ids ->
+    (forall z, In z ids -> exists nd, nth_error (heap g) z = Some nd /\ GenCL.visit_cond (ctr nd) capt = true) ->
+    Forall ev_ok evs ->
+    let st := trun (tinit g ids) evs in
+    tph st = false -> tcur st = Some w -> nth_error (heap (tg st)) w = Some nd -> GenCL.visit_cond (ctr nd) capt = true ->
+    (* w is visited by the next TVisit; all earlier visits that are still in the list come before it *)
+    tvis (tstep st TVisit) = tvis st ++ [w] /\
+    forall v, In v (tvis st) -> In v (tids st) -> precedes (tids st) v w.
+  Proof.
+    intros G Hc Hok. cbv zeta. intros Hph Hcur Hn Hv.
+    pose proof (trun_inv ids evs _ (tinit_inv g ids G Hc) Hok) as [G' Hcu Hlt Hnd Hbeh Hcond Hseen Htodo].
+    split; [cbn [tstep]; rewrite Hph, Hcur, Hn, Hv; reflexivity|].
+    intros v Hvv Hvi.
+    assert (Hl : live nd) by (apply visit_cond_live; exact Hv).
+    assert (Hw : In w (tids (trun (tinit g ids) evs))) by (eapply gi_live; eauto).
+    assert (Hfl : first_live (heap (tg (trun (tinit g ids) evs))) (tcur (trun (tinit g ids) evs)) (Some w)) by (rewrite Hcur; eapply fl_live; eauto).
+    destruct (Hbeh _ Hfl v Hvv) as [A|[A _]]; [|congruence].
+    unfold ahead in A. cbn [sfrom_o] in A.
+    destruct (sfrom_suffix w _ Hw) as [pre [E Nw]].
+    assert (Hvp : In v pre).
+    { rewrite E in Hvi. apply in_app_or in Hvi. destruct Hvi as [X|X]; [exact X|contradiction]. }
+    destruct (in_split _ _ Hvp) as [a [b Ep]].
+    assert (Hs : exists c, sfrom w (tids (trun (tinit g ids) evs)) = w :: c).
+    { pose proof (sfrom_self w _ Hw) as S.
+      destruct (in_split _ _ Hw) as [a' [b' Ei]].
+      assert (Nd := gi_nodup _ _ G'). rewrite Ei in Nd. destruct (nodup_split_notin _ _ _ Nd) as [Na _].
+      exists b'. rewrite Ei. apply sfrom_split. exact Na. }
+    destruct Hs as [c Es]. exists a, b, c. rewrite E at 1. rewrite Ep, Es. rewrite <- app_assoc. reflexivity.
+  Qed.
 End Trav.
